@@ -417,6 +417,10 @@ class RefWorld:
             if st is None:
                 still.append(w)
             else:
+                if w.get("at") == self.now:
+                    self.probes["resolve_same_instant_as_yield"] += 1
+                if "any" in w["tree"]:
+                    self.probes["any_race_observed"] = self.probes.get("any_race_observed", 0) + 1
                 self.push(self.now, "resume", proc=w["proc"], value=st[0], wkind=_tree_kind(w["tree"]))
         self.waiting = still
 
@@ -502,7 +506,7 @@ class RefWorld:
                         self.probes["any_ambiguous_at_build"] += 1
                     self.push(self.now, "resume", proc=i, value=st[0], wkind=_tree_kind(tree))
                 else:
-                    self.waiting.append({"proc": i, "tree": tree, "built": built})
+                    self.waiting.append({"proc": i, "tree": tree, "built": built, "at": self.now})
                 return
             if op == "make":
                 fr["slots"][s["slot"]] = (s["tree"], self.res_order)
